@@ -45,6 +45,9 @@ def main():
                 m["patch"] = os.path.join(d, "patch.diff")
                 m["name"] = os.path.basename(d)
                 items.append(("seeded", m))
+    if "--patch" in args:
+        items = [("adhoc", {"name": os.path.basename(os.path.dirname(args[args.index("--patch") + 1])) or "patch", "property": args[args.index("--prop") + 1], "patch": args[args.index("--patch") + 1]})]
+        only = None
     for kind, m in items:
         if only and m["property"] != only:
             continue
